@@ -217,6 +217,8 @@ def correspondence(ctx, exes, ncases, seed_offset=0):
     e = ctx.extra['correspondence']; e['cases'] += len(cases); e['skipped_by_generator'] += skipped; e['vectors_compared'] += ncmp
     for k2, v in hist.items(): e['histogram'][k2] = e['histogram'].get(k2, 0) + v
     e['rtol'] = RTOL; e['atol'] = ATOL
+    if skipped > 0.1 * ncases:      # generator rejections (failed projections of random sets) are rare; many of them means the probe itself is broken
+        ctx.broken.append(('generator:C07', 'the probe skipped %d of %d cases' % (skipped, ncases)))
     if dis:
         c, what, imp, mod = dis[0]
         ctx.broken.append(('correspondence:%s:%s' % (KNAMES[c['kind']], what), 'model and implementation differ in %s (%d disagreements in %d cases): %s impl=%s model=%s; replay: %s %d %d' %
